@@ -1,6 +1,7 @@
 /-
   Property C12 — abuse resistance: long-term secret keys only touch
-  saltpack-specific inputs.  Statements only; proofs in Saltpack/Proofs/Calls.lean.
+  saltpack-specific inputs.  Statements only; proofs in Saltpack/Proofs/Calls.lean
+  and Saltpack/Proofs/CallsExact.lean.
 
   Model functions that use a long-term key return the log of the calls they make
   on the application's key objects (operation, nonce, message), in program
@@ -9,6 +10,7 @@
   forged input.
 -/
 import Saltpack.Proofs.Calls
+import Saltpack.Proofs.CallsExact
 import Saltpack.Gen.Inventory
 import Saltpack.Toy
 
@@ -21,12 +23,69 @@ open Saltpack Saltpack.Proofs
     site, or one that moves, breaks this obligation before any input is needed. -/
 theorem C12_key_call_sites : Gen.keyCallSites = ["sp.computeMACKeySingle:Box", "sp.decryptStream.tryHiddenReceivers:Precompute", "sp.decryptStream.tryHiddenReceivers:Unbox", "sp.decryptStream.tryVisibleReceivers:Unbox", "sp.derivedEphemeralKeyFromBoxKeys:Box", "sp.encryptStream.init:Box", "sp.encryptStream.init:Precompute", "sp.signAttachedStream.computeSig:Sign", "sp.signDetachedStream.Close:Sign", "sp.signcryptSealStream.signcryptBlock:Sign"] := rfl
 
-/-- **Receivers (encryption).** Whatever header and packets arrive and whatever
-    the keyring answers: every box the long-term secret key is asked to open is
-    opened under the V1 constant or `saltpack_recipsb ‖ be64(index)` — a function
-    of the recipient *index*, never of message bytes; every other use is boxing
-    the fixed 32 zero bytes (MAC-key derivation) or a precomputation. -/
-theorem C12_decrypt_calls (P : Prims) (valid : Validator) (kr : Keyring) (hr : HeaderRead EncHeader)
+/-! ## receivers -/
+
+/-- **Receivers (encryption), exact form.** Whatever header `h` (with bytes
+    `hb`) and packets arrive and whatever the keyring answers, every call on a
+    long-term key object is one of:
+
+    * `Unbox` / shared `Unbox`: the nonce is `Nonce.payloadKeyBox h.version j` —
+      the function of a recipient *index* `j` below the header's recipient
+      count — and the ciphertext is the box of the header's `j`-th entry; the
+      peer key is the header's ephemeral key as imported by the keyring.  No
+      nonce byte and no other ciphertext is taken from the message;
+    * `Box`: of the fixed 32 zero bytes, under a MAC-key nonce of the header
+      hash `P.hash hb` (V1: its first 24 bytes; V2: `macKeyBoxV2` of a recipient
+      index below the recipient count);
+    * `Precompute` of a keyring secret key with the imported ephemeral key;
+
+    and nothing else (no shared `Box`, no `Sign`). -/
+theorem C12_decrypt_calls (P : Prims) (valid : Validator) (kr : Keyring) (hb : Bytes) (h : EncHeader)
+    (ps : PStream EncBlock) :
+    ∀ c ∈ (Decrypt.openStream P valid kr (.ok hb h) ps).calls,
+      match c with
+      | .unbox _ pk n ct =>
+        kr.importBoxEphemeralKey h.ephemeral = some pk ∧
+        ∃ j, j < h.receivers.length ∧ Nonce.payloadKeyBox h.version j = .ok n ∧
+          ct = (h.receivers.getD j default).box
+      | .sharedUnbox sk pk n ct =>
+        sk ∈ kr.getAllBoxSecretKeys ∧ kr.importBoxEphemeralKey h.ephemeral = some pk ∧
+        ∃ j, j < h.receivers.length ∧ Nonce.payloadKeyBox h.version j = .ok n ∧
+          ct = (h.receivers.getD j default).box
+      | .box _ _ n m =>
+        m = zeros 32 ∧ ∃ j, j < h.receivers.length ∧
+          ((h.version.major = 1 ∧ n = Nonce.macKeyBoxV1 (P.hash hb)) ∨
+           (h.version.major = 2 ∧ ∃ e : Bool, n = Nonce.macKeyBoxV2 (P.hash hb) e j))
+      | .precompute sk pk =>
+        sk ∈ kr.getAllBoxSecretKeys ∧ kr.importBoxEphemeralKey h.ephemeral = some pk
+      | .sharedBox _ _ _ _ => False
+      | .sign _ _ => False := by
+  intro c hc
+  have := dec_calls_exact P valid kr hb h ps c hc
+  cases c <;> exact this
+
+/-- the index in the MAC-key nonces is the position of the matched entry: in a
+    successful `processHeader` (state `st`), every `Box` of the log is of 32 zero
+    bytes under V1: the first 24 bytes of the header hash, V2:
+    `macKeyBoxV2 hh e st.position` -/
+theorem C12_decrypt_mac_nonce_index (P : Prims) (valid : Validator) (kr : Keyring) (hh : Bytes) (h : EncHeader)
+    (log : List KeyCall) (st : Decrypt.State)
+    (hres : Decrypt.processHeader P valid kr hh h = (log, .ok st)) :
+    ∀ sk pk n m, KeyCall.box sk pk n m ∈ log →
+      m = zeros 32 ∧ st.position < h.receivers.length ∧
+      ((h.version.major = 1 ∧ n = Nonce.macKeyBoxV1 hh) ∨
+       (h.version.major = 2 ∧ ∃ e : Bool, n = Nonce.macKeyBoxV2 hh e st.position)) :=
+  processHeader_box_position P valid kr hh h log st hres
+
+/-- without a decodable header no key object is touched at all -/
+theorem C12_decrypt_no_header_no_calls (P : Prims) (valid : Validator) (kr : Keyring)
+    (hr : HeaderRead EncHeader) (ps : PStream EncBlock) (hno : ∀ hb h, hr ≠ .ok hb h) :
+    (Decrypt.openStream P valid kr hr ps).calls = [] :=
+  dec_calls_no_header P valid kr hr ps hno
+
+/-- corollary (the former, weaker form of `C12_decrypt_calls`): every unbox
+    nonce has the *shape* of a payload-key-box nonce -/
+theorem C12_decrypt_calls_shape (P : Prims) (valid : Validator) (kr : Keyring) (hr : HeaderRead EncHeader)
     (ps : PStream EncBlock) :
     ∀ c ∈ (Decrypt.openStream P valid kr hr ps).calls, DecCallOK c :=
   dec_calls_ok P valid kr hr ps
@@ -47,34 +106,221 @@ theorem C12_signcrypt_open_calls (P : Prims) (kr : Keyring) (res : Signcrypt.Res
       ∃ sk pk, c = .box sk pk Nonce.derivedSharedKey (zeros 32) :=
   sc_calls_ok P kr res hr ps
 
+/-- exact form: the whole log is empty, or exactly one such `Box` per box secret
+    key of the keyring, in keyring order, against the header's ephemeral key as
+    imported — never an unbox, never a nonce or ciphertext from the message -/
+theorem C12_signcrypt_open_calls_exact (P : Prims) (kr : Keyring) (res : Signcrypt.Resolver)
+    (hb : Bytes) (h : EncHeader) (ps : PStream SigncryptBlock) :
+    (Signcrypt.openStream P kr res (.ok hb h) ps).calls = [] ∨
+    ∃ eph, kr.importBoxEphemeralKey h.ephemeral = some eph ∧
+      (Signcrypt.openStream P kr res (.ok hb h) ps).calls =
+        kr.getAllBoxSecretKeys.map (fun sk => KeyCall.box sk eph Nonce.derivedSharedKey (zeros 32)) :=
+  sc_calls_exact P kr res hb h ps
+
+/-! ## senders: what is boxed and signed -/
+
 /-- **Senders.** A sender's long-term box key only boxes 32 zero bytes. -/
 theorem C12_sender_box_calls (v : Version) (sender : Option Bytes) (hh : Bytes) (rs : List Encrypt.Recipient) (i : Nat) :
     ∀ c ∈ Encrypt.senderCalls v sender hh rs i, ∃ sk pk n, c = .box sk pk n (zeros 32) :=
   sender_calls_ok v sender hh rs i
 
-/-- **Signing keys** are asked to sign only: a domain-separation string followed
-    by fixed-length hash material — attached: 64 bytes = SHA-512 over the header
-    hash (which covers the fresh random header nonce), the packet number, the
-    final flag and the chunk; -/
-theorem C12_attached_sign_inputs (P : Prims) (hP : P.Lawful) (v : Version) (signer hh : Bytes)
+/-- **Signing keys, attached — exact input.** Every signing call is for the
+    `k`-th element `(ch, f)` of the chunk plan and signs the attached domain
+    string followed by
+    V1: `SHA-512(hh ‖ be64 (i+k) ‖ ch)`, V2: `SHA-512(hh ‖ be64 (i+k) ‖ final byte ‖ ch)`
+    — hash material over the header hash `hh`, never raw caller bytes (a sender
+    that signed `domain ‖ msg` for a 64-byte caller message does not satisfy
+    this).  `hh` is the hash of the emitted header bytes, which contain the
+    fresh nonce: see `C12_sender_log_coherent_attached`. -/
+theorem C12_attached_sign_inputs (P : Prims) (v : Version) (signer hh : Bytes)
+    (plan : List (Bytes × Bool)) (i : Nat) :
+    ∀ c ∈ Sign.signCalls P v signer hh plan i,
+      ∃ k ch f, plan[k]? = some (ch, f) ∧ (v.major = 1 ∨ v.major = 2) ∧
+        c = .sign signer (Gen.c_sp_signatureAttachedString ++
+              (if v.major = 1 then P.hash (hh ++ be64 (i + k) ++ ch)
+               else P.hash (hh ++ be64 (i + k) ++ finalByte f ++ ch))) :=
+  attached_sign_inputs_exact P v signer hh plan i
+
+/-- the same, index-aligned: for a version with major 1 or 2 the log is exactly
+    one call per planned chunk, in order, the `k`-th for packet number `i + k` -/
+theorem C12_attached_sign_inputs_indexed (P : Prims) (v : Version) (hv : v.major = 1 ∨ v.major = 2)
+    (signer hh : Bytes) (plan : List (Bytes × Bool)) (i : Nat) :
+    Sign.signCalls P v signer hh plan i =
+      (plan.zipIdx i).map (fun p => KeyCall.sign signer
+        (Gen.c_sp_signatureAttachedString ++
+          (if v.major = 1 then P.hash (hh ++ be64 p.2 ++ p.1.1)
+           else P.hash (hh ++ be64 p.2 ++ finalByte p.1.2 ++ p.1.1)))) :=
+  attached_signCalls_index P v hv signer hh plan i
+
+/-- corollary: a domain string followed by exactly 64 bytes -/
+theorem C12_attached_sign_inputs_len (P : Prims) (hP : P.Lawful) (v : Version) (signer hh : Bytes)
     (plan : List (Bytes × Bool)) (i : Nat) :
     ∀ c ∈ Sign.signCalls P v signer hh plan i,
       ∃ d, d.length = 64 ∧ c = .sign signer (Gen.c_sp_signatureAttachedString ++ d) :=
   attached_sign_inputs P hP v signer hh plan i
 
-/-- detached: 64 bytes = SHA-512(header hash ‖ message); -/
-theorem C12_detached_sign_input (P : Prims) (hP : P.Lawful) (hh msg : Bytes) :
+/-- **detached — exact input**: domain string ‖ `SHA-512(header hash ‖ message)` -/
+theorem C12_detached_sign_input (P : Prims) (hh msg : Bytes) :
+    detachedSignatureInput P hh msg = Gen.c_sp_signatureDetachedString ++ P.hash (hh ++ msg) :=
+  detached_sign_input_exact P hh msg
+
+theorem C12_detached_sign_input_len (P : Prims) (hP : P.Lawful) (hh msg : Bytes) :
     ∃ d, d.length = 64 ∧ detachedSignatureInput P hh msg = Gen.c_sp_signatureDetachedString ++ d :=
   detached_sign_input P hP hh msg
 
-/-- signcryption: 64 + 24 + 1 + 64 bytes = header hash ‖ nonce ‖ final ‖ SHA-512(chunk).
+/-- **signcryption — exact input**: for the `k`-th chunk `(ch, f)` of the plan:
+    domain string ‖ header hash ‖ chunk nonce of `(f, i+k)` ‖ final byte ‖ `SHA-512(ch)`.
     Never raw caller- or attacker-chosen bytes. -/
-theorem C12_signcrypt_sign_inputs (P : Prims) (hP : P.Lawful) (sender : Option Bytes) (hh : Bytes)
+theorem C12_signcrypt_sign_inputs (P : Prims) (sender : Option Bytes) (hh : Bytes)
+    (plan : List (Bytes × Bool)) (i : Nat) :
+    ∀ c ∈ Signcrypt.signCalls P sender hh plan i,
+      ∃ s k ch f, sender = some s ∧ plan[k]? = some (ch, f) ∧
+        c = .sign s (Gen.c_sp_signatureEncryptedString ++
+              (hh ++ Nonce.chunkSigncryption hh f (i + k) ++ finalByte f ++ P.hash ch)) :=
+  signcrypt_sign_inputs_exact P sender hh plan i
+
+/-- the same, index-aligned (named sender): exactly one call per planned chunk -/
+theorem C12_signcrypt_sign_inputs_indexed (P : Prims) (s hh : Bytes) (plan : List (Bytes × Bool)) (i : Nat) :
+    Signcrypt.signCalls P (some s) hh plan i =
+      (plan.zipIdx i).map (fun p => KeyCall.sign s
+        (Gen.c_sp_signatureEncryptedString ++
+          (hh ++ Nonce.chunkSigncryption hh p.1.2 p.2 ++ finalByte p.1.2 ++ P.hash p.1.1))) :=
+  signcrypt_signCalls_index P s hh plan i
+
+/-- corollary: 64 + 24 + 1 + 64 bytes after the domain string -/
+theorem C12_signcrypt_sign_inputs_len (P : Prims) (hP : P.Lawful) (sender : Option Bytes) (hh : Bytes)
     (hhl : hh.length = 64) (plan : List (Bytes × Bool)) (i : Nat) :
     ∀ c ∈ Signcrypt.signCalls P sender hh plan i,
       ∃ s d, sender = some s ∧ d.length = 64 + 24 + 1 + 64 ∧
         c = .sign s (Gen.c_sp_signatureEncryptedString ++ d) :=
   signcrypt_sign_inputs P hP sender hh hhl plan i
+
+/-! ## senders: the logs list exactly the key operations of the sender models
+
+  `Sign.signCalls`, `Signcrypt.signCalls`, `Encrypt.senderCalls` are recursions
+  written next to the functions that build the packets.  These theorems tie
+  them to the packets: every signature / MAC key in an emitted message is the
+  result of the corresponding logged call, one call per packet / recipient, in
+  order, and the logs contain nothing else. -/
+
+/-- the value a logged call returns -/
+theorem C12_call_results (P : Prims) (k inp sk pk n m : Bytes) :
+    Calls.sigOf P (.sign k inp) = P.sign k inp ∧ Calls.boxOf P (.box sk pk n m) = P.box sk pk n m ∧
+    (∀ b, Calls.macKeyOfBox b = (b.drop 16).take 32) :=
+  ⟨rfl, rfl, fun _ => rfl⟩
+
+/-- **attached**: `Sign` emits header `h` (carrying the fresh `nonce`), header
+    bytes `hb` and blocks `blks`; block `k` is ⟨result of the `k`-th logged call,
+    `k`-th chunk, `k`-th flag⟩, the log being taken under `P.hash hb` -/
+theorem C12_sender_log_coherent_attached (P : Prims) (bs : Nat) (v : Version) (signer nonce msg : Bytes)
+    (h : SigHeader) (hb : Bytes) (blks : List SigBlock)
+    (hok : Sign.attachedPackets P bs v signer nonce msg = .ok (h, hb, blks)) :
+    h = Sign.header v (P.sigPub signer) mtAttached nonce ∧ h.nonce = nonce ∧ hb = Msgpack.encode h.toVal ∧
+    (Sign.signCalls P v signer (P.hash hb) (Encrypt.chunkPlan v bs msg) 0).length = (Encrypt.chunkPlan v bs msg).length ∧
+    blks = List.zipWith (fun c p => (⟨Calls.sigOf P c, p.1, p.2⟩ : SigBlock))
+      (Sign.signCalls P v signer (P.hash hb) (Encrypt.chunkPlan v bs msg) 0) (Encrypt.chunkPlan v bs msg) :=
+  attachedPackets_coherent P bs v signer nonce msg h hb blks hok
+
+/-- the same for any plan and start number (the recursion itself) -/
+theorem C12_sender_log_coherent_attached_blocks (P : Prims) (v : Version) (signer hh : Bytes)
+    (plan : List (Bytes × Bool)) (i : Nat) (blks : List SigBlock)
+    (h : Sign.blockStructs P v signer hh plan i = .ok blks) :
+    (Sign.signCalls P v signer hh plan i).length = plan.length ∧
+    blks = List.zipWith (fun c p => (⟨Calls.sigOf P c, p.1, p.2⟩ : SigBlock))
+      (Sign.signCalls P v signer hh plan i) plan :=
+  sign_blockStructs_coherent P v signer hh plan i blks h
+
+/-- **detached**: the one signature of the message is the result of the one
+    logged call, whose input is bound to the hash of the emitted header bytes -/
+theorem C12_sender_log_coherent_detached (P : Prims) (v : Version) (signer nonce msg m : Bytes)
+    (hok : Sign.detachedWith P v signer nonce msg = .ok m) :
+    ∃ hb, hb = Msgpack.encode (Sign.header v (P.sigPub signer) mtDetached nonce).toVal ∧
+      m = headerPacket hb ++ Msgpack.encBin
+        (Calls.sigOf P (.sign signer (Gen.c_sp_signatureDetachedString ++ P.hash (P.hash hb ++ msg)))) :=
+  detachedWith_coherent P v signer nonce msg m hok
+
+/-- **signcryption, named sender**: block `k` of the emitted message is the
+    secretbox, under the chunk nonce, of (result of the `k`-th logged call ‖
+    chunk `k`), the log being taken under the hash of the emitted header bytes -/
+theorem C12_sender_log_coherent_signcrypt (P : Prims) (bsz : Nat) (s : Bytes) (rs : List Signcrypt.Recipient)
+    (eph pk pt : Bytes) (h : EncHeader) (hb : Bytes) (blks : List SigncryptBlock)
+    (hok : Signcrypt.sealPackets P bsz (some s) rs eph pk pt = .ok (h, hb, blks)) :
+    h = Signcrypt.header P (some s) eph pk rs ∧ hb = Msgpack.encode h.toVal ∧
+    (Signcrypt.signCalls P (some s) (P.hash hb) (Encrypt.chunkPlan v2 bsz pt) 0).length
+      = (Encrypt.chunkPlan v2 bsz pt).length ∧
+    blks = List.zipWith
+      (fun c p => (⟨P.sbSeal pk (Nonce.chunkSigncryption (P.hash hb) p.1.2 p.2) (Calls.sigOf P c ++ p.1.1), p.1.2⟩ : SigncryptBlock))
+      (Signcrypt.signCalls P (some s) (P.hash hb) (Encrypt.chunkPlan v2 bsz pt) 0)
+      ((Encrypt.chunkPlan v2 bsz pt).zipIdx 0) :=
+  signcrypt_sealPackets_coherent P bsz s rs eph pk pt h hb blks hok
+
+theorem C12_sender_log_coherent_signcrypt_blocks (P : Prims) (s pk hh : Bytes)
+    (plan : List (Bytes × Bool)) (i : Nat) (bs : List SigncryptBlock)
+    (h : Signcrypt.blockStructs P (some s) pk hh plan i = .ok bs) :
+    (Signcrypt.signCalls P (some s) hh plan i).length = plan.length ∧
+    bs = List.zipWith
+      (fun c p => (⟨P.sbSeal pk (Nonce.chunkSigncryption hh p.1.2 p.2) (Calls.sigOf P c ++ p.1.1), p.1.2⟩ : SigncryptBlock))
+      (Signcrypt.signCalls P (some s) hh plan i) (plan.zipIdx i) :=
+  signcrypt_blockStructs_coherent P s pk hh plan i bs h
+
+/-- anonymous signcryption: no signing call at all, 64 zero bytes in the slot -/
+theorem C12_sender_log_coherent_signcrypt_anon (P : Prims) (pk hh : Bytes)
+    (plan : List (Bytes × Bool)) (i : Nat) (bs : List SigncryptBlock)
+    (h : Signcrypt.blockStructs P none pk hh plan i = .ok bs) :
+    Signcrypt.signCalls P none hh plan i = [] ∧
+    bs = (plan.zipIdx i).map
+      (fun p => (⟨P.sbSeal pk (Nonce.chunkSigncryption hh p.1.2 p.2) (zeros 64 ++ p.1.1), p.1.2⟩ : SigncryptBlock)) :=
+  signcrypt_blockStructs_coherent_anon P pk hh plan i bs h
+
+/-- **encryption V1, named sender `s`**: the `k`-th MAC key is bytes 16..48 of
+    the result of the `k`-th logged `Box` -/
+theorem C12_sender_log_coherent_encrypt_v1 (P : Prims) (s eSecret hh : Bytes) (rs : List Encrypt.Recipient) (i : Nat)
+    (mks : List Bytes) (h : Encrypt.macKeysSender P v1 s eSecret hh rs i = .ok mks) :
+    mks = (Encrypt.senderCalls v1 (some s) hh rs i).map (fun c => Calls.macKeyOfBox (Calls.boxOf P c)) :=
+  macKeysSender_coherent_v1 P s eSecret hh rs i mks h
+
+/-- **encryption V2, named sender `s`**: one logged `Box` per recipient; the
+    `k`-th MAC key is `SHA-512(bytes 16..48 of the k-th logged Box ‖ the MAC key
+    of the ephemeral key for recipient k)[:32]` -/
+theorem C12_sender_log_coherent_encrypt_v2 (P : Prims) (s eSecret hh : Bytes) (rs : List Encrypt.Recipient) (i : Nat)
+    (mks : List Bytes) (h : Encrypt.macKeysSender P v2 s eSecret hh rs i = .ok mks) :
+    (Encrypt.senderCalls v2 (some s) hh rs i).length = rs.length ∧
+    mks = List.zipWith
+      (fun c p => sum512Truncate256 P (Calls.macKeyOfBox (Calls.boxOf P c) ++
+          macKeySingle P eSecret p.1.pub (Nonce.macKeyBoxV2 hh true p.2)))
+      (Encrypt.senderCalls v2 (some s) hh rs i) (rs.zipIdx i) :=
+  macKeysSender_coherent_v2 P s eSecret hh rs i mks h
+
+/-- an anonymous sender has no long-term key: nothing is logged -/
+theorem C12_sender_log_coherent_encrypt_anon (v : Version) (hh : Bytes) (rs : List Encrypt.Recipient) (i : Nat) :
+    Encrypt.senderCalls v none hh rs i = [] :=
+  senderCalls_anon v hh rs i
+
+/-- `Seal`'s packets: the MAC keys behind the emitted authenticators are
+    `macKeysSender` under the hash of the emitted header bytes -/
+theorem C12_sender_log_coherent_encrypt_packets (P : Prims) (bsz : Nat) (v : Version) (sender : Option Bytes)
+    (rs : List Encrypt.Recipient) (eph pk pt : Bytes) (h : EncHeader) (hb : Bytes) (blks : List EncBlock)
+    (hok : Encrypt.sealPackets P bsz v sender rs eph pk pt = .ok (h, hb, blks)) :
+    Encrypt.header P v sender eph pk rs = .ok h ∧ hb = Msgpack.encode h.toVal ∧
+    ∃ mks, Encrypt.macKeysSender P v (sender.getD eph) eph (P.hash hb) rs 0 = .ok mks ∧
+      Encrypt.blockStructs P v pk (P.hash hb) mks (Encrypt.chunkPlan v bsz pt) 0 = .ok blks :=
+  sealPackets_coherent P bsz v sender rs eph pk pt h hb blks hok
+
+/-- the log the correspondence compares (`sealRandCalls`) is `senderCalls` under
+    the hash of the header bytes of the very message `sealRand` emits, for the
+    recipient order that message uses -/
+theorem C12_sender_log_coherent_seal (P : Prims) (bsz : Nat) (v : Version) (sender : Option Bytes)
+    (rs : List Encrypt.Recipient) (eph : Encrypt.EphSource) (src : Rand.Source) (pt m : Bytes) (rest : Rand.Source)
+    (h : Encrypt.sealRand P bsz v sender rs eph src pt = .ok (m, rest)) :
+    ∃ js src1 ephSec pk hd hb blks body,
+      Encrypt.shuffleDraws (rs.length - 1) src (src.length + 1) = .ok (js, src1) ∧
+      Encrypt.sealPackets P bsz v sender (Rand.shuffle js rs) ephSec pk pt = .ok (hd, hb, blks) ∧
+      Encrypt.encodeBlocks v blks = .ok body ∧ m = headerPacket hb ++ body ∧
+      Encrypt.sealRandCalls P v sender rs eph src =
+        .ok (Encrypt.senderCalls v sender (P.hash hb) (Rand.shuffle js rs) 0) :=
+  sealRand_calls_coherent P bsz v sender rs eph src pt m rest h
+
+/-! ## non-vacuity -/
 
 example : Toy.prims.Lawful := Toy.lawful
 /-- the predicate is not trivially true: an unbox under a message-derived nonce
@@ -85,5 +331,41 @@ example : ¬ DecCallOK (.unbox [] [] [1, 2, 3] []) := by
   · exact absurd (congrArg List.length h) (by decide)
   · have := congrArg List.length h
     simp [Nonce.payloadKeyBoxV2, be64_length] at this
+
+/-- the exact form excludes what the shape form allows: an unbox whose nonce has
+    the right 16-byte prefix but a counter that is not a recipient index of the
+    header (here: counter 7, one recipient) -/
+example (kr : Keyring) (hh : Bytes) (sk pk : Bytes) :
+    let h : EncHeader := { formatName := [], version := v2, typ := 0, ephemeral := [],
+                           senderSecretbox := [], receivers := [⟨none, [9]⟩] }
+    DecCallOK (.unbox sk pk (Nonce.payloadKeyBoxV2 7) [9]) ∧
+    ¬ DecCallExact kr hh h (.unbox sk pk (Nonce.payloadKeyBoxV2 7) [9]) := by
+  intro h
+  refine ⟨Or.inr ⟨7, rfl⟩, ?_⟩
+  rintro ⟨_, j, hj, hn, _⟩
+  have hj0 : j = 0 := by
+    have : h.receivers.length = 1 := rfl
+    omega
+  subst hj0
+  have hn' : Nonce.payloadKeyBoxV2 0 = Nonce.payloadKeyBoxV2 7 := by
+    have : Nonce.payloadKeyBox h.version 0 = .ok (Nonce.payloadKeyBoxV2 0) := rfl
+    rw [this] at hn
+    cases hn
+  exact absurd (payloadKeyBoxV2_inj 0 7 (by decide) (by decide) hn') (by decide)
+
+/-- the receiver log is not empty: a keyring with one secret key against a V2
+    header with two hidden entries — one precomputation, then one shared unbox
+    per entry, under the nonce of the entry's *index*, of the entry's box -/
+example :
+    (Decrypt.openStream Toy.prims (fun _ => true)
+        (⟨fun _ => (-1, none), fun _ => none, [[5]], fun e => some e, fun _ => none⟩ : Keyring)
+        (.ok [0] { formatName := Gen.c_sp_FormatName, version := v2, typ := mtEncryption, ephemeral := [1],
+                   senderSecretbox := [], receivers := [⟨none, [9]⟩, ⟨none, [8]⟩] })
+        ⟨[], .eof⟩).calls =
+      [.precompute [5] [1], .sharedUnbox [5] [1] (Nonce.payloadKeyBoxV2 0) [9],
+       .sharedUnbox [5] [1] (Nonce.payloadKeyBoxV2 1) [8]] := by decide
+
+/-- the logs are not empty: one attached-signature call per planned chunk -/
+example : (Sign.signCalls Toy.prims v2 [1] [2] [([3], false), ([4], true)] 0).length = 2 := by decide
 
 end Saltpack.Props.C12
